@@ -1,7 +1,7 @@
 """L3 and O rules: recipes and persistent containers built on atomic primitives."""
 import ast
 
-from .framework import rule, Ob, fmt_trace, values_in
+from .framework import rule, Ob, fmt_trace, values_in, real_call
 from .model import AnalysisError, walk_shallow, dotted
 from .values import V
 
@@ -24,7 +24,7 @@ L3_BLOCKS = [
 
 
 def _data_calls(trace, fn):
-    return [e for e in trace if e.kind == 'CALL' and e.fn is fn and e.d['targets'][0].name in CACHE_DATA
+    return [e for e in trace if real_call(e) and e.d['targets'][0].name in CACHE_DATA
             and any(t.cls in ('Cache', 'FanoutCache', 'Deque') for t in e.d['targets'])]
 
 
@@ -58,7 +58,7 @@ def l3(ctx):
                     reads = names & {'get', '__len__', 'peekitem'}
                     if writes and not reads:
                         ok, why, wit = False, 'a write runs in a different block than the read it depends on', fmt_trace(p.trace)
-            enters = [e for e in p.trace if e.kind == 'TXN_ENTER' and e.fn is f]
+            enters = [e for e in p.trace if e.kind == 'TXN_ENTER']
             for e in enters:
                 r = e.d['retry']
                 if not (r.is_const and r.val is True):
@@ -76,7 +76,7 @@ def l3(ctx):
     for p in ctx.paths(f, 'default'):
         if p.kind == 'cut':
             continue
-        calls = [e for e in p.trace if e.kind == 'CALL' and e.fn is f]
+        calls = [e for e in p.trace if real_call(e)]
         if p.kind in ('return', 'next'):
             n += 1
             adds = [e for e in calls if e.d['name'] == 'add']
@@ -108,7 +108,7 @@ def l3(ctx):
     ok = True
     n = 0
     for p in ctx.paths(f, 'default'):
-        writes = [e for e in p.trace if e.kind == 'CALL' and e.fn is f and e.d['name'] in ('set', '__setitem__', 'add')]
+        writes = [e for e in p.trace if real_call(e) and e.d['name'] in ('set', '__setitem__', 'add')]
         for w in writes:
             n += 1
             if w.d['name'] != 'add':
@@ -127,7 +127,7 @@ def l3(ctx):
     for p in ctx.paths(f, 'default'):
         if p.kind == 'cut':
             continue
-        calls = [e for e in p.trace if e.kind == 'CALL' and e.fn is f and e.d['targets'][0].cls == 'Deque']
+        calls = [e for e in p.trace if real_call(e) and e.d['targets'][0].cls == 'Deque']
         for i, e in enumerate(calls):
             tn = e.d['targets'][0].name
             if tn in ('append', 'appendleft'):
@@ -170,8 +170,8 @@ def l3(ctx):
     f = ctx.func('recipes.Averager.pop')
     ok = False
     for p in ctx.paths(f, 'plain'):
-        calls = [e for e in p.trace if e.kind == 'CALL' and e.fn is f]
-        ok = len(calls) == 1 and calls[0].d['name'] == 'pop'
+        calls = _data_calls(p.trace, f)
+        ok = len(calls) == 1 and calls[0].d['targets'][0].name == 'pop'
     obs.append(Ob('L3', 'Averager.pop/single-pop', ok, 'Averager.pop is not one atomic pop: adds between the read and the '
                   'delete would be lost', f.loc()))
     return obs
@@ -211,10 +211,10 @@ def o0(ctx):
     f = ctx.func('recipes.BoundedSemaphore.acquire')
     ok, wit, n = True, None, 0
     for p in ctx.paths(f, 'default'):
-        sets = [e for e in p.trace if e.kind == 'CALL' and e.fn is f and e.d['name'] == 'set']
+        sets = [e for e in p.trace if real_call(e) and e.d['name'] == 'set']
         for s in sets:
             n += 1
-            gets = [e for e in p.trace[:s.seq] if e.kind == 'CALL' and e.fn is f and e.d['name'] == 'get']
+            gets = [e for e in p.trace[:s.seq] if real_call(e) and e.d['name'] == 'get']
             if not gets:
                 ok, wit = False, fmt_trace(p.trace)
                 continue
@@ -237,10 +237,10 @@ def o0(ctx):
     f = ctx.func('recipes.BoundedSemaphore.release')
     ok, wit, n = True, None, 0
     for p in ctx.paths(f, 'default'):
-        sets = [e for e in p.trace if e.kind == 'CALL' and e.fn is f and e.d['name'] == 'set']
+        sets = [e for e in p.trace if real_call(e) and e.d['name'] == 'set']
         for s in sets:
             n += 1
-            gets = [e for e in p.trace[:s.seq] if e.kind == 'CALL' and e.fn is f and e.d['name'] == 'get']
+            gets = [e for e in p.trace[:s.seq] if real_call(e) and e.d['name'] == 'get']
             gv = V('ret', gets[-1].seq, tuple(sorted(t.qual for t in gets[-1].d['targets']))) if gets else None
             allowed = None
             for e in p.trace[:s.seq]:
@@ -272,7 +272,7 @@ def o1(ctx):
         shape = None
         for p in ctx.paths(f, 'default'):
             for e in p.trace:
-                if e.kind == 'CALL' and e.fn is f and e.d['name'] == 'set' and len(e.d['args']) > 1:
+                if real_call(e) and e.d['name'] == 'set' and len(e.d['args']) > 1:
                     v = e.d['args'][1]
                     owner = v.a[0][0] if v.k == 'tuple' and v.a[0] else None
                     if owner is None:
@@ -306,10 +306,10 @@ def o2(ctx):
     f = ctx.func('recipes.RLock.acquire')
     ok, wit, n = True, None, 0
     for p in ctx.paths(f, 'default'):
-        sets = [e for e in p.trace if e.kind == 'CALL' and e.fn is f and e.d['name'] == 'set']
+        sets = [e for e in p.trace if real_call(e) and e.d['name'] == 'set']
         for s in sets:
             n += 1
-            gets = [e for e in p.trace[:s.seq] if e.kind == 'CALL' and e.fn is f and e.d['name'] == 'get']
+            gets = [e for e in p.trace[:s.seq] if real_call(e) and e.d['name'] == 'get']
             if not gets:
                 ok, wit = False, fmt_trace(p.trace)
                 continue
@@ -342,10 +342,10 @@ def o2(ctx):
     f = ctx.func('recipes.RLock.release')
     ok, wit, n = True, None, 0
     for p in ctx.paths(f, 'default'):
-        sets = [e for e in p.trace if e.kind == 'CALL' and e.fn is f and e.d['name'] == 'set']
+        sets = [e for e in p.trace if real_call(e) and e.d['name'] == 'set']
         for s in sets:
             n += 1
-            gets = [e for e in p.trace[:s.seq] if e.kind == 'CALL' and e.fn is f and e.d['name'] == 'get']
+            gets = [e for e in p.trace[:s.seq] if real_call(e) and e.d['name'] == 'get']
             g = gets[-1]
             gv = V('ret', g.seq, tuple(sorted(t.qual for t in g.d['targets'])))
             owner_v, count_v = V('field', gv, 0), V('field', gv, 1)
@@ -389,7 +389,7 @@ def o3(ctx):
             f = ctx.func('recipes.%s.%s' % (cls, m))
             ok = False
             for p in ctx.paths(f, 'plain'):
-                calls = [e for e in p.trace if e.kind == 'CALL' and e.fn is f]
+                calls = [e for e in p.trace if real_call(e)]
                 ok = len(calls) == 1 and calls[0].d['name'] == callee and calls[0].d['recv'].k == 'self'
             obs.append(Ob('O3', '%s.%s' % (cls, m), ok, '%s.%s does not call self.%s() exactly once' % (cls, m, callee),
                           f.loc()))
@@ -418,89 +418,143 @@ def o3(ctx):
     return obs
 
 
-@rule('O4', floor=4, title='throttle: spend exactly one token inside the block or compute a delay and sleep outside it')
+def _is_refill(v, gv):
+    """tokens + (now - last) * rate, modulo commutativity; returns (now value) or None."""
+    if not (v.k == 'term' and v.a[0] == 'Add' and len(v.a[1]) == 2):
+        return None
+    tally = V('field', gv, 1)
+    last = V('field', gv, 0)
+    for x, y in (v.a[1], v.a[1][::-1]):
+        if x != tally:
+            continue
+        if not (y.k == 'term' and y.a[0] == 'Mult' and len(y.a[1]) == 2):
+            continue
+        for m, r in (y.a[1], y.a[1][::-1]):
+            if r.k in ('free', 'term') and (r.k != 'free' or r.a[0] == 'rate' or True):
+                if m.k == 'term' and m.a[0] == 'Sub' and m.a[1][1] == last and m.a[1][0].k == 'ucall':
+                    return m.a[1][0]
+    return None
+
+
+def _find_refill(trace, gv):
+    for e in trace:
+        vals = []
+        if e.kind == 'TEST':
+            vals = values_in(e.d['val'])
+        elif e.kind in ('CALL', 'UCALL'):
+            vals = [x for a in e.d['args'] for x in values_in(a)]
+        for x in vals:
+            now = _is_refill(x, gv)
+            if now is not None:
+                return x, now
+    return None, None
+
+
+@rule('O4', floor=5, title='throttle: refill by elapsed*rate, cap at count, spend exactly one token inside the block or wait outside it')
 def o4(ctx):
     f = ctx.func('recipes.throttle.<locals>.decorator.<locals>.wrapper')
-    node = f.node
-    obs = []
-    # locate the with-block and the branches inside it
-    withs = [n for n in ast.walk(node) if isinstance(n, ast.With)]
-    if len(withs) != 1:
-        raise AnalysisError('O4: throttle wrapper no longer has exactly one transaction block')
-    w = withs[0]
-    ifs = [n for n in w.body if isinstance(n, ast.If)]
-    ok = bool(ifs)
-    why = ''
-    delay0 = any(isinstance(n, ast.Assign) and ast.unparse(n.targets[0]) == 'delay' and isinstance(n.value, ast.Constant)
-                 and n.value.value == 0 for n in w.body)
-    branches = []
+    res = {'refill': [True, None], 'spend-or-wait': [True, None], 'cap': [True, None], 'wait-outside': [True, None],
+           'proceed-iff-spent': [True, None]}
+    n_spend = n_wait = n_cap = 0
 
-    def collect(ifn):
-        branches.append(ifn.body)
-        if len(ifn.orelse) == 1 and isinstance(ifn.orelse[0], ast.If):
-            collect(ifn.orelse[0])
-        else:
-            branches.append(ifn.orelse)
-    if ifs:
-        collect(ifs[-1])
-    spend = wait = 0
-    for b in branches:
-        sets = [n for s in b for n in ast.walk(s) if isinstance(n, ast.Call) and isinstance(n.func, ast.Attribute)
-                and n.func.attr == 'set']
-        delays = [s for s in b if isinstance(s, ast.Assign) and ast.unparse(s.targets[0]) == 'delay']
-        if sets and not delays:
-            spend += 1
-            for c in sets:
-                val = c.args[1] if len(c.args) > 1 else None
-                if not (isinstance(val, ast.Tuple) and len(val.elts) == 2 and isinstance(val.elts[1], ast.BinOp)
-                        and isinstance(val.elts[1].op, ast.Sub) and isinstance(val.elts[1].right, ast.Constant)
-                        and val.elts[1].right.value == 1 and ast.unparse(val.elts[0]) == 'now'):
-                    ok, why = False, 'a spending branch does not store (now, tokens - 1)'
-        elif delays and not sets:
-            wait += 1
-            if isinstance(delays[0].value, ast.Constant):
-                ok, why = False, 'the waiting branch assigns a constant delay'
-        else:
-            ok, why = False, 'a branch both spends a token and waits, or does neither'
-    if not delay0:
-        ok, why = False, 'delay is not reset to 0 before the branches'
-    obs.append(Ob('O4', 'throttle/branch-shape', ok and spend >= 1 and wait == 1, why or 'branch shape not recognised',
-                  f.loc(w)))
-    # tokens are capped at count and refilled by elapsed * rate
-    src = ast.unparse(w)
-    obs.append(Ob('O4', 'throttle/refill', 'tally += (now - last) * rate' in src or 'tally = tally + (now - last) * rate' in src,
-                  'the bucket is not refilled by elapsed time * rate', f.loc(w)))
-    capped = any(isinstance(n, ast.If) and ast.unparse(n.test) in ('tally > count', 'count < tally', 'tally >= count')
-                 for n in ast.walk(w))
-    obs.append(Ob('O4', 'throttle/capped-at-count', capped, 'the bucket is not capped at `count` tokens: after an idle '
-                  'period an unbounded burst would be let through', f.loc(w)))
-    spend_guard = any(isinstance(n, ast.If) and ast.unparse(n.test) in ('tally >= 1', '1 <= tally') for n in ast.walk(w))
-    obs.append(Ob('O4', 'throttle/spend-needs-one-token', spend_guard, 'a call is let through with less than one token',
-                  f.loc(w)))
-    # paths: the sleep is outside the block and the function is called after the loop
-    okp = True
-    n = 0
+    def fail(k, p):
+        res[k] = [False, fmt_trace(p.trace)]
+    count = None
     for p in ctx.paths(f, 'default'):
-        for e in p.trace:
-            if e.kind == 'UCALL' and e.d['callee'].k == 'free' and e.d['callee'].a[0] == 'sleep_func':
-                n += 1
-                if e.txn:
-                    okp = False
-                if not (e.d['args'] and e.d['args'][0].k == 'term'):
-                    okp = False
-    obs.append(Ob('O4', 'throttle/sleep-outside-with-computed-delay', okp and n > 0,
-                  'the wait is inside the transaction block or not the computed delay', f.loc()))
-    # loop exit is controlled by delay alone
-    loops = [n for n in ast.walk(node) if isinstance(n, ast.While)]
-    ctl = False
-    for lp in loops:
-        for s in lp.body:
-            if isinstance(s, ast.If) and ast.unparse(s.test) == 'delay':
-                has_break = any(isinstance(x, ast.Break) for x in s.orelse)
-                sleeps = any(isinstance(x, ast.Call) and ast.unparse(x.func) == 'sleep_func' for y in s.body for x in ast.walk(y))
-                ctl = has_break and sleeps
-            if isinstance(s, ast.If) and ast.unparse(s.test) in ('not delay', 'delay == 0'):
-                ctl = any(isinstance(x, ast.Break) for x in s.body)
-    obs.append(Ob('O4', 'throttle/loop-exit-on-zero-delay', ctl, 'the retry loop is not left exactly when no delay was '
-                  'computed', f.loc()))
+        tr = p.trace
+        blocks = [e for e in tr if e.kind == 'TXN_ENTER']
+        if not blocks:
+            continue
+        # analyse the first loop iteration: events of transaction instance 1 and what follows until the next block
+        inst = blocks[0].d['inst']
+        end = blocks[1].seq if len(blocks) > 1 else len(tr)
+        seg = tr[blocks[0].seq:end]
+        gets = [e for e in seg if real_call(e) and e.d['targets'][0].name == 'get']
+        sets = [e for e in seg if real_call(e) and e.d['targets'][0].name in ('set', '__setitem__')]
+        if len(gets) != 1 or not gets[0].txn:
+            fail('spend-or-wait', p)
+            continue
+        gv = V('ret', gets[0].seq, tuple(sorted(t.qual for t in gets[0].d['targets'])))
+        refilled, nowv = _find_refill(seg, gv)
+        if refilled is None:
+            fail('refill', p)
+            continue
+        clock = tr[nowv.a[0]]
+        if not (clock.d['callee'].k == 'free' and clock.d['callee'].a[0] == 'time_func' and clock.txn):
+            fail('refill', p)
+        # thresholds established on this path
+        ge1 = gtcount = None
+        for e in seg:
+            if e.kind != 'TEST':
+                continue
+            c1 = _cmp_sets(e, lambda x: x == refilled, lambda x: x.is_const and x.val == 1)
+            if c1 is not None:
+                ge1 = c1          # orderings of refilled vs 1 consistent with this path
+            cc = _cmp_sets(e, lambda x: x == refilled, lambda x: x.k == 'free' and x.a[0] == 'count')
+            if cc is not None:
+                gtcount = cc
+        sleeps = [e for e in seg if e.kind == 'UCALL' and e.d['callee'].k == 'free' and e.d['callee'].a[0] == 'sleep_func']
+        users = [e for e in tr[blocks[0].seq:] if e.kind == 'UCALL' and e.d['callee'].k == 'free' and e.d['callee'].a[0] == 'func']
+        if sets:
+            if len(sets) != 1 or not sets[0].txn or sets[0].txn[0] != inst:
+                fail('spend-or-wait', p)
+                continue
+            val = sets[0].d['args'][1] if len(sets[0].d['args']) > 1 else None
+            if not (val is not None and val.k == 'tuple' and len(val.a[0]) == 2 and val.a[0][0] == nowv):
+                fail('spend-or-wait', p)
+                continue
+            stored = val.a[0][1]
+            cap_form = stored.k == 'term' and stored.a[0] == 'Sub' and stored.a[1][0].k == 'free' and \
+                stored.a[1][0].a[0] == 'count' and stored.a[1][1].is_const and stored.a[1][1].val == 1
+            spend_form = stored.k == 'term' and stored.a[0] == 'Sub' and stored.a[1][0] == refilled and \
+                stored.a[1][1].is_const and stored.a[1][1].val == 1
+            if cap_form:
+                n_cap += 1
+                if gtcount is None or not gtcount <= {'>', '='} or '>' not in gtcount:
+                    fail('cap', p)
+            elif spend_form:
+                n_spend += 1
+                if ge1 is None or '<' in ge1:
+                    fail('spend-or-wait', p)       # a call is let through with less than one token
+                if gtcount is None or '>' in gtcount:
+                    fail('cap', p)                # the bucket may hold more than `count` tokens
+            else:
+                fail('spend-or-wait', p)
+            if sleeps:
+                fail('proceed-iff-spent', p)
+            if len(blocks) > 1 or (p.kind == 'return' and len(users) != 1):
+                fail('proceed-iff-spent', p)
+        else:
+            # the computed delay (1 - tokens) / rate is positive whenever tokens < 1: a path that assumes it falsy is
+            # arithmetically infeasible and is not judged (the truthiness of a computed float is not static)
+            infeasible = any(e.kind == 'TEST' and not e.d['truth'] and e.d['val'].k == 'term' and e.d['val'].a[0] == 'Div'
+                             and refilled in values_in(e.d['val']) for e in seg)
+            if infeasible:
+                continue
+            n_wait += 1
+            if ge1 is None or ge1 - {'<'}:
+                fail('spend-or-wait', p)           # waits although a token is available
+            if len(sleeps) != 1 or sleeps[0].txn:
+                fail('wait-outside', p)
+            else:
+                d = sleeps[0].d['args'][0] if sleeps[0].d['args'] else None
+                okd = d is not None and d.k == 'term' and d.a[0] == 'Div' and d.a[1][0].k == 'term' and \
+                    d.a[1][0].a[0] == 'Sub' and d.a[1][0].a[1][0].is_const and d.a[1][0].a[1][0].val == 1 and \
+                    d.a[1][0].a[1][1] == refilled
+                if not okd:
+                    fail('wait-outside', p)
+            if users and len(blocks) == 1:
+                fail('proceed-iff-spent', p)        # the function runs without a token having been spent
+    msgs = {
+        'refill': 'the bucket is not refilled as tokens + (time_func() - last) * rate read inside the block',
+        'spend-or-wait': 'a branch neither stores (now, tokens - 1) with at least one token available nor waits with '
+                         'less than one token',
+        'cap': 'the bucket is not capped at `count` tokens: after an idle period an unbounded burst is let through',
+        'wait-outside': 'the wait is not sleep_func((1 - tokens) / rate) outside the transaction block',
+        'proceed-iff-spent': 'the throttled function starts without a token having been spent in that iteration (or '
+                             'waits although it spent one)',
+    }
+    obs = []
+    for k, (ok, wit) in res.items():
+        obs.append(Ob('O4', 'throttle/' + k, ok and n_spend > 0 and n_wait > 0 and n_cap > 0, msgs[k], f.loc(), wit))
     return obs
